@@ -28,7 +28,7 @@ CHECKS["C02"] = dict(
  technique="TLA+ heap/alias model of the cache checked with TLC; behaviours replayed on the real code with byte digests and read-only arrays; traces validated by TLC",
  design_ref="DESIGN.md 4.1, 5/C02")
 CHECKS["C03"] = dict(
- text="AurelCache.tla safety layer (ANY set of unfrozen entries older than one calculation may be evicted at any clean-up point; freeze_data between requests) checked exhaustively by TLC on a dependency-closed sub-graph: FrozenNeverEvicted, FrozenNeverAltered, AgeTableSubsetOfCache, OnlyWholeUnfrozenEntries, CountMonotone, PolicyRefinement, and termination of every request under fairness; the code's strain policy (period 1..3, memory threshold below the inputs) on the real extracted graph. Behaviours are replayed on the real AurelCore (frozen entries present and byte-identical, last_accessed subset of data, no exception from cleanup_cache, wall-clock guard, importance overrides) and every nested step is checked by TLC trace validation against the named invariants.",
+ text="AurelCache.tla safety layer (ANY set of unfrozen entries older than one calculation may be evicted at any clean-up point; freeze_data between requests) checked exhaustively by TLC on a dependency-closed sub-graph: FrozenNeverEvicted, FrozenNeverAltered, AgeTableSubsetOfCache, OnlyWholeUnfrozenEntries, CountMonotone, PolicyRefinement, and termination of every request under fairness; the code's strain policy (period 1..3, memory threshold below the inputs) on the real extracted graph. Behaviours are replayed on the real AurelCore (frozen entries present and byte-identical, last_accessed subset of data, no exception from cleanup_cache, wall-clock guard, importance overrides) and every nested step is checked by TLC trace validation against the named invariants - also for every AurelCore instance created by the repository's own test files test_aurel_functions.py and test_over_time.py, recorded by a pytest plugin kept in /verif. The set-level abstraction CacheSafety.tla is refined by AurelCache (TLC property AbsSafety) and its invariant (frozen subset of data, age table subset of data, recently touched entries are aged) is shown INDUCTIVE by Apalache (Init => Inv, Inv /\\ Next => Inv', plus a negative control), which lifts the two bookkeeping clauses from TLC's request bound to any number of requests at the abstract level.",
  note="Safety layer exhaustive for <= 3 requests on a 6-request sub-graph; real graph exhaustive for <= 2 requests with the most aggressive settings; simulate beyond. Liveness only on the sub-graph; on the real code non-termination is caught by the wall-clock guard.",
  technique="TLA+ safety-layer/policy model of cache clean-up checked with TLC (safety + liveness); replay on the real code and TLC trace validation of every nested step",
  design_ref="DESIGN.md 4.1, 5/C03")
